@@ -20,14 +20,23 @@ BUNDLED = ["basilisp.string", "basilisp.set", "basilisp.walk", "basilisp.edn", "
 
 def plan(tier, seed):
     q = tier == "quick"
-    shards = [{"kind": "bundled", "namespaces": BUNDLED if not q else BUNDLED[:12], "env": {"BASILISP_DO_NOT_CACHE_NAMESPACES": "true"}}]
+    # basilisp.core (and whatever boot imports) is compiled from source in a shard whose whole process has caching off; the library
+    # namespaces are spread over shards that boot from the warmed cache and switch caching off before importing their share
+    shards = [{"kind": "bundled", "namespaces": [], "env": {"BASILISP_DO_NOT_CACHE_NAMESPACES": "true"}, "core_part": k, "core_parts": 4} for k in range(4)]
+    libs = BUNDLED if not q else BUNDLED[:12]
+    groups = 4
+    for g in range(groups):
+        shards.append({"kind": "bundled", "namespaces": libs[g::groups], "late_nocache": True})
     for i in range(5 if q else 14):
         shards.append({"kind": "programs", "n": 260 if q else 9000})
     shards.append({"kind": "operators"})
+    for i in range(1 if q else 2):
+        shards.append({"kind": "defs", "n": 300 if q else 6000})
     return {
         "level": "translation_validation",
         "rule": "every module AST pair (before, after) passing through PythonASTOptimizer.visit while basilisp.core and the bundled library namespaces are compiled from source (caching off), while the generated "
-        "program corpus of C01/C02 is compiled, and for a targeted operator corpus (each operator-module function the optimizer knows x operand shapes literal/name/effectful call); pairs are compared after "
+        "program corpus of C01/C02 is compiled, and for a targeted operator corpus (each operator-module function the optimizer knows x operand shapes literal/name/effectful call), and for generated programs whose nested sync/async functions def the same Vars at several levels, in untaken branches and behind unreachable "
+        "code (the global declarations the pass de-duplicates); pairs are compared after "
         "canonicalisation by an independent implementation of the allowed rewrites; generated programs are additionally executed with the real optimizer and with a least-optimizing baseline. "
         "programs = module pairs checked; disagreements_checked = pairs the optimizer actually changed (each classified).",
         "shards": shards,
@@ -53,11 +62,17 @@ def worker(spec, out):
         if mode["baseline"]:
             # least-optimizing baseline that still compiles: allowed statement-level clean-ups only, no operator rewrites
             return pc.canon(node, OPERATOR_ALIAS, ops=False)
-        before = copy.deepcopy(node) if mode["capture"] else None
+        # the compile of basilisp.core is shared out: each core shard compiles all of core but captures and judges only its residue class
+        nth[0] += 1
+        capture = mode["capture"] and (nth[0] % core_parts == core_part)
+        before = copy.deepcopy(node) if capture else None
         after = orig_visit(self, node)
-        if mode["capture"]:
+        if capture:
             pairs.append((before, after))
         return after
+
+    nth = [0]
+    core_parts, core_part = spec.get("core_parts", 1), spec.get("core_part", 0)
 
     optmod.PythonASTOptimizer.visit = wrapped_visit
 
@@ -115,6 +130,8 @@ def worker(spec, out):
                 judge_pairs("replay")
         elif c["kind"] == "program":
             dynamic_program(b, out, mode, pairs, judge_pairs, c["gseed"], c.get("p_mark", 0.3))
+        elif c["kind"] == "defs":
+            defs_program(b, out, mode, pairs, judge_pairs, c["gseed"])
         elif c["kind"] == "operator":
             operators(b, out, mode, pairs, judge_pairs, only=c.get("text"))
         return
@@ -125,7 +142,10 @@ def worker(spec, out):
 
         # basilisp.core was compiled from source under the wrapper during boot (caching is off in this shard)
         n_core = len(pairs)
-        out.setx("core_module_pairs", n_core)
+        if spec.get("late_nocache"):
+            os.environ["BASILISP_DO_NOT_CACHE_NAMESPACES"] = "true"  # read by the importer at each import
+        else:
+            out.count("core_module_pairs_judged", n_core)
         judge_pairs("basilisp.core")
         for nsname in spec["namespaces"]:
             try:
@@ -141,9 +161,105 @@ def worker(spec, out):
             out.maybe_flush()
     elif kind == "operators":
         operators(b, out, mode, pairs, judge_pairs)
+    elif kind == "defs":
+        for it in range(spec["n"]):
+            defs_program(b, out, mode, pairs, judge_pairs, rnd.getrandbits(48), sample=(it < 2))
+            out.maybe_flush()
 
 
 _RUNNER = {}
+
+
+def gen_defs_program(gseed):
+    """a program whose nested (sync and async) functions def the same few Vars at several nesting levels, inside do/let/if/try/loop, in
+    untaken branches and behind unreachable code; returns (text, expected snapshots). The Python `global` declarations the generator
+    emits for these defs are what the optimizer de-duplicates."""
+    r = random.Random(gseed)
+    names = ["ga", "gb", "gc"]
+    depth = r.randint(1, 3)
+    env = {n: ("kw", "g0") for n in names}
+    levels = []
+    for k in range(1, depth + 1):
+        is_async = r.random() < 0.3
+        stmts, effects = [], []
+        for i in range(r.randint(1, 4)):
+            n = r.choice(names)
+            v = f":L{k}-{i}"
+            d = f"(def {n} {v})"
+            t = r.random()
+            if t < 0.3:
+                stmts.append(d)
+                effects.append((n, v))
+            elif t < 0.4:
+                stmts.append(f"(do {d} nil)")
+                effects.append((n, v))
+            elif t < 0.5:
+                stmts.append(f"(let [q{i} 1] {d})")
+                effects.append((n, v))
+            elif t < 0.6:
+                stmts.append(f"(if true {d} nil)")
+                effects.append((n, v))
+            elif t < 0.7:
+                stmts.append(f"(try {d} (finally nil))")
+                effects.append((n, v))
+            elif t < 0.8:
+                stmts.append(f"(when false {d})")
+            elif t < 0.9:
+                stmts.append(f'(if false (do (throw (python/ValueError "unreachable")) {d}) nil)')
+            else:
+                stmts.append(f"(loop [i{i} 0] (when (< i{i} 2) {d} (recur (inc i{i}))))")
+                effects.append((n, v))
+        levels.append((is_async, stmts, effects))
+
+    def fn_text(k):
+        is_async, stmts, _ = levels[k - 1]
+        inner = fn_text(k + 1) if k < depth else ":leaf"
+        return f"(fn {'^:async ' if is_async else ''}f{k} [] {' '.join(stmts)} {inner})"
+
+    lines = ["(import asyncio)"] + [f"(def {n} :g0)" for n in names]
+    lines.append("(def snap (fn [] [ga gb gc @#'ga @#'gb @#'gc]))")
+    lines.append(f"(def h1 {fn_text(1)})")
+    lines.append("(def r0 (snap))")
+    cur = {n: ":g0" for n in names}
+    expected = [[cur[n] for n in names] * 2]
+    for k in range(1, depth + 1):
+        is_async, _, effects = levels[k - 1]
+        call = f"(asyncio/run (h{k}))" if is_async else f"(h{k})"
+        lines.append(f"(def h{k + 1} {call})")
+        lines.append(f"(def r{k} (snap))")
+        for n, v in effects:
+            cur[n] = v
+        expected.append([cur[n] for n in names] * 2)
+    lines.append("[" + " ".join(f"r{k}" for k in range(depth + 1)) + "]")
+    return "\n".join(lines), expected, any(l[0] for l in levels)
+
+
+def defs_program(b, out, mode, pairs, judge_pairs, gseed, sample=False):
+    from vf import progrun
+
+    R = _RUNNER.get("r")
+    if R is None:
+        R = _RUNNER["r"] = progrun.Runner(b)
+    text, expected, has_async = gen_defs_program(gseed)
+    case = {"kind": "defs", "gseed": gseed, "text": text}
+    mode["baseline"], mode["capture"] = False, True
+    opt = R.run_text(text, gseed % 8, fresh=True)
+    judge_pairs("nested-def-program")
+    mode["baseline"], mode["capture"] = True, False
+    try:
+        base = R.run_text(text, gseed % 8, fresh=True)
+    finally:
+        mode["baseline"], mode["capture"] = False, True
+    out.count("def_programs_executed_both_ways")
+    out.count("def_programs_with_async_level") if has_async else None
+    want = ("val", R.norm(b.read_all("[" + " ".join("[" + " ".join(s) + "]" for s in expected) + "]")[0]))
+    if opt[0] != base[0]:
+        which = "async-fn" if has_async else ("after-unreachable-code" if "unreachable" in text else "nested-fn")
+        out.violation(f"C15/dynamic/global-declaration/{which}/result-differs-between-optimized-and-baseline", {"text": text[:900], "optimized": repr(opt[0])[:400], "baseline": repr(base[0])[:400]}, case)
+    elif base[0] != want:
+        out.incon("nested-def program: optimized and baseline agree with each other but not with the reference expectation (not a statement about the optimizer)", case)
+    if sample:
+        out.sample({"def_program": text[:400], "optimized_outcome": repr(opt[0])[:160]})
 
 
 def dynamic_program(b, out, mode, pairs, judge_pairs, gseed, p_mark, sample=False):
